@@ -2063,3 +2063,11 @@ MUTANTS = list(MUTANTS) + [
        '                category="feature data"))\n\n'
        '    def check_external_links')], "R13.2"),
 ]
+
+# keeps its footing: raw-mask shortcut tested with hasattr (the breaking part
+# of that seeded change lives in feat_basin and is C02's matter)
+TWINS = list(TWINS) + [
+    ("raw-mask shortcut tested with hasattr", WR,
+     ('            if data.__class__.__name__ == "H5MaskEvent":',
+      '            if hasattr(data, "h5dataset"):')),
+]
